@@ -3,6 +3,7 @@ EXTENDS SlotEquivocation
 (* slots around the retention (1000) and pruning (2000) bounds             *)
 GSlots == {5, 6, 1005, 1006, 1007, 2004, 2005, 2006, 3006, 3007, 4100}
 MSlots == {5, 1005, 1006, 2005, 3006}
+QSlots == {5, 1005, 1006, 2005}
 GSigners == {1, 2, 3}
 MSigners == {1, 2}
 GHids == {1, 2, 3}
